@@ -4,7 +4,12 @@ package guidedremediation
 
 import (
 	"deps.dev/util/resolve"
+	"github.com/google/osv-scalibr/extractor"
+	"github.com/google/osv-scalibr/guidedremediation/internal/remediation"
+	"github.com/google/osv-scalibr/guidedremediation/internal/resolution"
+	"github.com/google/osv-scalibr/guidedremediation/internal/severity"
 	"github.com/google/osv-scalibr/guidedremediation/internal/vulns"
+	"github.com/google/osv-scalibr/guidedremediation/options"
 	"github.com/ossf/osv-schema/bindings/go/osvschema"
 )
 
@@ -13,3 +18,31 @@ func VerifIsAffected(v *osvschema.Vulnerability, sys resolve.System, name, versi
 	p := vulns.VKToPackage(resolve.VersionKey{PackageKey: resolve.PackageKey{System: sys, Name: name}, Version: version, VersionType: resolve.Concrete})
 	return vulns.IsAffected(v, p)
 }
+
+// VerifVKToPackage re-exports vulns.VKToPackage (the package carries the mock extractor).
+func VerifVKToPackage(vk resolve.VersionKey) *extractor.Package { return vulns.VKToPackage(vk) }
+
+// VerifSubgraph is the part of a resolution.DependencySubgraph that remediation.MatchVuln reads: the version key of the
+// vulnerable node and the distance of the root node (node 0) from it.
+type VerifSubgraph struct {
+	Dep          resolve.VersionKey
+	RootDistance int
+}
+
+// VerifMatchVuln builds a resolution.Vulnerability (internal type) from plain data and runs remediation.MatchVuln.
+func VerifMatchVuln(opts options.RemediationOptions, osv *osvschema.Vulnerability, devOnly bool, subs []VerifSubgraph) bool {
+	v := resolution.Vulnerability{OSV: osv, DevOnly: devOnly}
+	for _, s := range subs {
+		v.Subgraphs = append(v.Subgraphs, &resolution.DependencySubgraph{
+			Dependency: 1,
+			Nodes: map[resolve.NodeID]resolution.GraphNode{
+				0: {Version: resolve.VersionKey{PackageKey: resolve.PackageKey{System: s.Dep.System, Name: "root"}, Version: "1.0.0", VersionType: resolve.Concrete}, Distance: s.RootDistance},
+				1: {Version: s.Dep, Distance: 0},
+			},
+		})
+	}
+	return remediation.MatchVuln(opts, v)
+}
+
+// VerifSeverityScore re-exports severity.CalculateScore (used only to validate the harness's severity table at start-up).
+func VerifSeverityScore(s osvschema.Severity) (float64, error) { return severity.CalculateScore(s) }
